@@ -1192,3 +1192,39 @@ def m_slice_split_pred(c, s, *a):
 @model(r'^<(?:std::string::)?String as (?:std::str::)?FromStr>::from_str$|^(?:\w+::)*str::<impl str>::parse::<(?:std::string::)?String>$')
 def m_string_from_str(c, s):
     return ok(c.ip, Seq(list(items(c.ip, s)), 'string'))
+
+
+@model(r'^(?:\w+::)*str::<impl str>::split_whitespace$')
+def m_split_whitespace(c, p):
+    """str::split_whitespace on a string whose bytes are all concrete (admin console commands in the obligations that use it)."""
+    ip = c.ip
+    s = seq(ip, p)
+    its = list(s.items)
+    if any(not b.concrete for b in its):
+        raise Inconclusive("split_whitespace on a symbolic string")
+    from .collections_ import IterV
+    out, i, n = [], 0, len(its)
+    ws = (9, 10, 11, 12, 13, 32)
+    while i < n:
+        while i < n and its[i].v in ws:
+            i += 1
+        j = i
+        while j < n and its[j].v not in ws:
+            j += 1
+        if j > i:
+            out.append(Ptr(Cell(SeqView(s, i, j - i), 'word'), ()))
+        i = j
+    return IterV(out)
+
+
+@model(r'^(?:\w+::)*str::<impl str>::trim_end_matches::<char>$')
+def m_trim_end_matches_char(c, p, ch):
+    ip = c.ip
+    s = seq(ip, p)
+    its = list(s.items)
+    if any(not b.concrete for b in its) or not ch.concrete:
+        raise Inconclusive("trim_end_matches on a symbolic string")
+    n = len(its)
+    while n > 0 and its[n - 1].v == ch.v:
+        n -= 1
+    return Ptr(Cell(SeqView(s, 0, n), 'trimmed'), ())
